@@ -8,6 +8,7 @@ import (
 	"go/types"
 	"sort"
 	"strings"
+	"verifsa/internal/paths"
 
 	"golang.org/x/tools/go/ssa"
 
@@ -592,6 +593,74 @@ func chainRule(c *core.Ctx) {
 			}
 			if emitted < 2 {
 				problems = append(problems, fmt.Sprintf("only %d looked-up characters reach a rune-wide sink (expected the default-table and the extension-table result)", emitted))
+			}
+		}
+		// rejection: where a table lookup fails, the character is refused - listed as invalid (validators), answered with an
+		// error / false, or handed to the other table (encode side: default table, then extension table). A failed lookup
+		// that falls through silently accepts what the alphabet does not define.
+		for _, lk := range lookups {
+			var okEx ssa.Value
+			if lk.Referrers() != nil {
+				for _, r := range *lk.Referrers() {
+					if ex, isE := r.(*ssa.Extract); isE && ex.Index == 1 {
+						okEx = ex
+					}
+				}
+			}
+			if okEx == nil {
+				continue
+			}
+			// the outcome of the lookup is looked at
+			used := false
+			if refs := okEx.Referrers(); refs != nil {
+				for _, r := range *refs {
+					switch r.(type) {
+					case *ssa.If, *ssa.Return, *ssa.Phi, *ssa.UnOp, *ssa.BinOp:
+						used = true
+					}
+				}
+			}
+			if !used {
+				problems = append(problems, "the outcome of the lookup in "+globalOf(lk.X)+" at "+c.Prog.Pos(lk.Pos())+" is not used: the septet or character is neither accepted nor refused on its account")
+			}
+			for _, b := range fn.Blocks {
+				ifi, isIf := b.Instrs[len(b.Instrs)-1].(*ssa.If)
+				if !isIf || ifi.Cond != okEx {
+					continue
+				}
+				refused := false
+				blk := b.Succs[1]
+				for n := 0; n < 4 && blk != nil && !refused; n++ {
+					for _, ins := range blk.Instrs {
+						switch x := ins.(type) {
+						case *ssa.Call:
+							if bi, isB := x.Call.Value.(*ssa.Builtin); isB && bi.Name() == "append" {
+								refused = true
+							}
+						case *ssa.Lookup:
+							if g := globalOf(x.X); x.CommaOk && (g == want[0] || g == want[1]) {
+								refused = true
+							}
+						case *ssa.Return:
+							for _, rv := range x.Results {
+								if isErrorType(rv.Type()) && !paths.IsNilConst(rv) {
+									refused = true
+								}
+								if kc, isK := rv.(*ssa.Const); isK && kc.Value != nil && kc.Value.Kind() == constant.Bool && !constant.BoolVal(kc.Value) {
+									refused = true
+								}
+							}
+						}
+					}
+					if len(blk.Succs) == 1 {
+						blk = blk.Succs[0]
+					} else {
+						blk = nil
+					}
+				}
+				if !refused {
+					problems = append(problems, "a failed lookup in "+globalOf(lk.X)+" at "+c.Prog.Pos(lk.Pos())+" is followed by neither a refusal (error, false, listing as invalid) nor the other table: an undefined character or septet is accepted")
+				}
 			}
 		}
 		// context (decoders): the septet that follows an escape is looked up in the extension table only, every other
